@@ -164,6 +164,9 @@ pub enum Op {
     Ping { slot: u16, cancel: Option<u8> },
     /// `WeakSender::try_force_send`
     ForceSend { slot: u16 },
+    /// `count` sequence-numbered fire-and-forget messages back to back (every `force_every`-th through the
+    /// forcing path), checked for per-client order inside the actor without logging each one
+    Burst { slot: u16, count: u32, force_every: u8 },
     Stop { slot: u16 },
     Halt { slot: u16 },
     Consume { slot: u16 },
@@ -190,6 +193,8 @@ pub enum Op {
     Yield,
     Sleep(u64),
     SpawnActor { decl: u16 },
+    /// `build(actor)…<strategy>.register().await` (service decls only): pushes two slots (self, previous entry)
+    SpawnRegister { decl: u16 },
     /// poll the harness event log (not the actor) until `count` events of kind `what` (0 = stopped() exits,
     /// 1 = tick handler entries, 2 = delayed_exec bodies) of actor `tag` were seen; bounded wait
     AwaitLog { tag: u32, what: u8, count: u32 },
